@@ -188,11 +188,8 @@ example : (St.pushes 3 two).caps = two.caps ∧ (St.pushes 4 two).caps ≠ two.c
 
 /-- **text pin**: the generated functions this property's hand-written model describes have, in
     /repo today, exactly the text the model was written from (`Soa/Model/Pinned.lean`) -/
-theorem bodies_pinned :
-    Soa.Extracted.bodies.filter (fun r => Soa.Model.scopeOf r == "C12") =
-    Soa.Model.pinned.filter (fun r => Soa.Model.scopeOf r == "C12") := by decide +kernel
+theorem bodies_pinned : Soa.Extracted.bodies_C12 = Soa.Model.pinned_C12 := rfl
 
-theorem bodies_pinned_nonempty :
-    (Soa.Model.pinned.filter (fun r => Soa.Model.scopeOf r == "C12")).length ≥ 4 := by decide +kernel
+theorem bodies_pinned_nonempty : Soa.Model.pinned_C12.length ≥ 4 := by decide
 
 end Soa.C12
